@@ -203,10 +203,17 @@ class DefRuntime:
         cls = self.classes[ph["k"]]
         d = ph["d"]
         try:
-            if d["d"] in ("require_partial", "ensure_partial"):
+            if d["d"] in ("require_partial", "ensure_partial", "require_raw", "ensure_raw"):
                 target = getattr(cls, ph["name"])
-                part = functools.partial(target)
-                deco = ic.require(self.cond(d["c"], "pre")) if d["d"] == "require_partial" else ic.ensure(self.cond(d["c"], "post"))
+                if d["d"].endswith("_raw"):
+                    # the undecorated function is given contracts a second time, independently (strict = require(c)(raw))
+                    part = target
+                    while hasattr(part, "__wrapped__"):
+                        part = part.__wrapped__
+                    part = getattr(part, "__func__", part)
+                else:
+                    part = functools.partial(target)
+                deco = ic.require(self.cond(d["c"], "pre")) if d["d"].startswith("require") else ic.ensure(self.cond(d["c"], "post"))
                 self.keep = getattr(self, "keep", []) + [deco(part)]
                 return "ok"
             if d["d"] == "invariant":
@@ -413,7 +420,7 @@ def replay_history(hist: dict, expected: Dict[int, dict], ic: Any) -> List[dict]
                     ex = normalise_model_view(exp["views"][j - 1], hist["names"])
                     if act != ex:
                         own = (j == ph["k"]) or (ph["k"] in hist["cls"][j - 1]["mro"])
-                        if ph["d"]["d"].endswith("_partial"):
+                        if ph["d"]["d"].endswith(("_partial", "_raw")):
                             own = False      # a new callable was decorated: no existing class may change at all
                         divergences.append({"step": nst + i, "cls": j,
                                             "clause": _view_clause(ex, act, j, j if own else j + 1), "exp": ex, "act": act})
